@@ -99,10 +99,38 @@ macro_rules! batch {
 }
 
 /// Applies the builder calls; logs each call with its result when `w` is given.
+macro_rules! add_fns_n {
+    ($b:expr, $chunk:expr, $log:expr, $($n:literal),*) => {
+        match $chunk.len() {
+            $($n => {
+                let wants: Vec<usize> = $chunk.iter().map(|x| x.id).collect();
+                let arr: [Node; $n] = match <[Node; $n]>::try_from(std::mem::take(&mut $chunk)) {
+                    Ok(a) => a,
+                    Err(_) => unreachable!(),
+                };
+                let ids = $b.add_fns(arr);
+                for (want, id) in wants.iter().zip(ids.iter()) {
+                    $log(*want, id.index() + 1);
+                }
+            })*
+            _ => unreachable!(),
+        }
+    };
+}
+
 pub fn apply_calls(
     nodes: Vec<Node>,
     calls: &[BCall],
     w: Option<&W>,
+) -> FnGraphBuilder<Node> {
+    apply_calls_with(nodes, calls, w, false)
+}
+
+pub fn apply_calls_with(
+    nodes: Vec<Node>,
+    calls: &[BCall],
+    w: Option<&W>,
+    batch_fns: bool,
 ) -> FnGraphBuilder<Node> {
     let mut b = FnGraphBuilder::<Node>::new();
     let late = calls.iter().filter(|c| matches!(c, BCall::Fn)).count();
@@ -116,9 +144,27 @@ pub fn apply_calls(
                 .ev(json!({"ev":"add_fn","want":want,"id":id.index()+1}));
         }
     };
-    for _ in 0..upfront {
-        if let Some(node) = nodes.next() {
-            add(&mut b, node);
+    if batch_fns {
+        // arrays of 1..=6 functions, sizes cycling 3, 1, 6, 2, 5, 4
+        let log = |want: usize, id: usize| {
+            if let Some(w) = w {
+                w.borrow_mut().ev(json!({"ev":"add_fn","want":want,"id":id,"batch":true}));
+            }
+        };
+        let mut left = upfront;
+        let mut k = 0;
+        while left > 0 {
+            let size = std::cmp::min(left, [3usize, 1, 6, 2, 5, 4][k % 6]);
+            k += 1;
+            let mut chunk: Vec<Node> = (0..size).filter_map(|_| nodes.next()).collect();
+            left -= size;
+            add_fns_n!(b, chunk, log, 1, 2, 3, 4, 5, 6);
+        }
+    } else {
+        for _ in 0..upfront {
+            if let Some(node) = nodes.next() {
+                add(&mut b, node);
+            }
         }
     }
     for c in calls {
@@ -185,7 +231,7 @@ pub fn panic_msg(p: Box<dyn std::any::Any + Send>) -> String {
 
 /// Builds the graph of the scenario, logging `build`. `None` if `build()` panicked.
 pub fn build_logged(scn: &Scenario, w: &W) -> Option<FnGraph<Node>> {
-    let b = apply_calls(nodes_of(scn), &scn.calls, Some(w));
+    let b = apply_calls_with(nodes_of(scn), &scn.calls, Some(w), scn.add_fns);
     if scn.watchdog {
         // build() on its own thread; given up after BUILD_SECS (the thread is left behind, the harness stops afterwards)
         let (tx, rx) = std::sync::mpsc::channel();
@@ -244,7 +290,7 @@ pub fn build_logged(scn: &Scenario, w: &W) -> Option<FnGraph<Node>> {
 pub const BUILD_SECS: u64 = 30;
 
 pub fn build_quiet(scn: &Scenario) -> Option<FnGraph<Node>> {
-    let b = apply_calls(nodes_of(scn), &scn.calls, None);
+    let b = apply_calls_with(nodes_of(scn), &scn.calls, None, scn.add_fns);
     let r = catch_unwind(AssertUnwindSafe(move || b.build())).ok();
     #[cfg(feature = "hooks")]
     let _ = fn_graph::verif_hooks::drain();
